@@ -321,7 +321,7 @@ def run(ctx, widen=False):
     thorough = ctx.tier == "thorough" or widen
     rng = ctx.rng
     cases = [{"prog": p, "flags": f, "inputs": i} for p, f, i in FIXED]
-    n = 40000 if thorough else 2500
+    n = 40000 if thorough else 6000
     for _ in range(n):
         cases.append({"prog": gen_program(rng, rng.randint(1, 4)), "flags": rng.choice(FLAGS), "inputs": gen_inputs(rng)})
     # the model's answers in one batch: reference semantics of the tree, Python semantics of the model's transpiled tree
